@@ -7,10 +7,10 @@ cd $HERE
 python3 check.py setup > /dev/null 2>&1
 : > $OUT
 # optional: SWEEP_PART=k/n takes every n-th change starting at the k-th (to run several sweeps side by side)
-k=${SWEEP_PART%%/*}; m=${SWEEP_PART##*/}; idx=0
+pk=${SWEEP_PART%%/*}; pm=${SWEEP_PART##*/}; idx=0
 for d in seeded/C*; do
   idx=$((idx+1))
-  if [ -n "$SWEEP_PART" ] && [ $(( (idx - 1) % m )) -ne $(( k - 1 )) ]; then continue; fi
+  if [ -n "$SWEEP_PART" ] && [ $(( (idx - 1) % pm )) -ne $(( pk - 1 )) ]; then continue; fi
   n=$(basename $d); P=${n:0:3}
   git -C $RC checkout -q -- . ; git -C $RC apply $HERE/$d/patch.diff || { echo "$n: patch does not apply" >> $OUT; continue; }
   o=$(python3 check.py $P --tier quick 2>&1); rc=$?
